@@ -23,6 +23,29 @@ _TABLE0 = set(_decl.BuiltinImplementationSpecifications)
 assert not (_TABLE0 & set(BUILTINS)), "a pool type is already declared at import time"
 
 
+import json as _json
+
+def rooted(case):
+    """cases written before ``Interface`` became interface 0 are renumbered (every interface + 1)"""
+    if case.get("rooted"):
+        return case
+    c = _json.loads(_json.dumps(case))
+    c["ifaces"] = [[]] + [[b + 1 for b in bs] or [0] for bs in c["ifaces"]]
+    for m in c.get("metas", []):
+        m["l"] = [i + 1 for i in m["l"]]
+    for o in c["ops"]:
+        if "l" in o:
+            o["l"] = [a + 1 if isinstance(a, int) else a for a in o["l"]]
+        if "x" in o:
+            o["x"] += 1
+        if o.get("old") is not None:
+            o["old"] = [i + 1 for i in o["old"]]
+        if o.get("md") is not None:
+            o["md"] = [i + 1 for i in o["md"]]
+    c["rooted"] = True
+    return c
+
+
 def falsy_body(kind):
     """truth value of the objects must not matter: classes (through their metaclass) and instances
     that are falsy by __bool__ or by __len__"""
@@ -56,6 +79,9 @@ class World:
     def __init__(self, case):
         self.ifaces = []
         for i, bases in enumerate(case["ifaces"]):
+            if i == 0:
+                self.ifaces.append(Interface)     # interface 0 is zope.interface.Interface itself
+                continue
             bs = tuple(self.ifaces[b] for b in bases) or (Interface,)
             self.ifaces.append(InterfaceClass("I%d" % i, bs, {}, __module__="c01case"))
         self.index = {id(x): i for i, x in enumerate(self.ifaces)}
@@ -78,8 +104,6 @@ class World:
     def mask(self, it):
         m = 0
         for i in it:
-            if i is Interface:
-                continue
             m |= 1 << self.num(i)
         return m
 
@@ -217,6 +241,7 @@ def _ids(sel, everything):
 
 
 def run_case(case):
+    case = rooted(case)
     w = World(case)
     steps = []
     for op in case["ops"]:
